@@ -45,6 +45,13 @@ CLAIMS = {
               "of the filtered table), end; a backfilled event equals the live event of the same row state; KeysOnly leaks nothing. The 'no gap "
               "while the feed starts' clause is schedule-level (F16) and not claimed by this check.",
               note="Partial: the start-up race is outside what holds."),
+ "C10": claim("Proved on the model: a reopen observes exactly the committed rows / collections / high-water marks whatever the dying process held; "
+              "a transaction either leaves the persisted state untouched or commits row + bucket.lastCas + collection.lastCas together under one "
+              "CAS; every single-row call is one such transaction; pending expirations are re-armed on reopen. ASSUMED: SQLite's atomic durable "
+              "commit (WAL) and that all statements of a call run on its one transaction - exercised by killing a child process (SIGKILL) at "
+              "instrumentation points before/inside/after every transaction and reopening in a fresh process, with the model as oracle.",
+              technique="Lean 4 theorems over an executable model + fault enumeration (kill at every instrumentation point) against the model",
+              note="Partial: power loss (fsync behaviour) is not exercised, only process death."),
  "C11": claim("Proved: a call addressed to collection c leaves the whole Coll value of every other collection unchanged (single-row entry points "
               "and Update loops), and posts to no feed of another collection; validated on the real code by re-reading every key of every "
               "collection after every operation. DropDataStore / re-creation and views are not modelled yet (partial)."),
